@@ -1,0 +1,36 @@
+//go:build verif
+// +build verif
+
+package proc
+
+// Contracts for the deductive verifier in /verif (govc). Comment-only file.
+
+// ---- C09: the listener releases whoever waits for it; connection limit ------------------------
+
+//@ func (*listener).Serve
+//@   prop C09
+//@   requires l != nil && l.done != nil && !closed(l.done)
+//@   modifies all
+//@   ensures @done-closed-on-every-return closed(l.done)
+
+//@ func (*listener).connsLimit
+//@   prop C09
+//@   requires l != nil && l.cfg != nil
+//@   modifies nothing
+//@   ensures @limit-reached-iff result == (l.cfg.ConnectionLimit != 0 && uint32(len(l.conns)) >= l.cfg.ConnectionLimit)
+
+//@ func (*listener).addConn
+//@   prop C09 C20
+//@   requires l != nil && l.cfg != nil && l.stats != nil
+//@   modifies mapof(l.conns), statval
+//@   ensures @admit-iff-registry-open-and-under-limit result == (old(l.conns) != nil && !(l.cfg.ConnectionLimit != 0 && uint32(old(len(l.conns))) >= l.cfg.ConnectionLimit))
+//@   ensures @admitted-is-registered result ==> has(l.conns, conn) && len(l.conns) <= old(len(l.conns)) + 1
+//@   ensures @admitted-is-counted result ==> statval[l.stats.CxTotal] == uint64(old(statval[l.stats.CxTotal]) + 1) && statval[l.stats.CxActive] == uint64(old(statval[l.stats.CxActive]) + 1) && statval[l.stats.CxDestroyTotal] == old(statval[l.stats.CxDestroyTotal])
+//@   ensures @rejected-is-not-counted !result ==> statval[l.stats.CxTotal] == old(statval[l.stats.CxTotal]) && statval[l.stats.CxActive] == old(statval[l.stats.CxActive]) && l.conns == old(l.conns)
+
+//@ func (*listener).removeConn
+//@   prop C09 C20
+//@   requires l != nil && l.stats != nil && (l.conns == nil || has(l.conns, conn))
+//@   modifies mapof(l.conns), statval
+//@   ensures @admitted-connection-is-destroyed-exactly-once statval[l.stats.CxDestroyTotal] == uint64(old(statval[l.stats.CxDestroyTotal]) + 1) && statval[l.stats.CxActive] == uint64(old(statval[l.stats.CxActive]) - 1) && statval[l.stats.CxTotal] == old(statval[l.stats.CxTotal])
+//@   ensures @unregistered l.conns == nil || !has(l.conns, conn)
